@@ -5,6 +5,7 @@ import CifModel.Lemmas.NumbAutoinit
 import CifModel.Lemmas.StoreValue
 import CifModel.Lemmas.StoreInv
 import CifModel.Lemmas.NumbOk
+import CifModel.Lemmas.StoreCodec
 /-
   Property C07 — values stored in a CIF are read back identical.
 
@@ -352,6 +353,81 @@ theorem C07_store_read_delivers_cells (d : Db) (hinv : Inv d) (cid ln : Nat) (k 
     rw [hc] at this
     exact ⟨hc, this⟩
 
+/-! ### codec ∘ store: stored through any route, read back identical through any reading statement
+
+  `Model/StoreCodec`: the API operations with every value passed through `image = fromColumns ∘ checks ∘ toColumns` on its
+  way into the table (what a cell of the store model holds is what the bound columns denote).  The theorem below is about
+  these composed operations and quantifies over every value the API can construct (`C07_constructible`, any nesting,
+  numbers from every number function) that fits the address space (`C07_fits`): no `wfValue` hypothesis — the bridge
+  `C07_constructible_wf` discharges it, and with it the codec is the identity (`image v = some v`).
+  Reading: `ReadsBack d cid k row v` — GET_VALUE_SQL (cif_container_get_value) and GET_LOOP_VALUES_SQL (the statement
+  cif_pktitr_next_packet and cif_walk read) both return a row for the cell and only rows carrying `v`; for
+  cif_container_set_value the API-level answer of cif_container_get_value as well. -/
+
+open CifModel.Store CifModel.Store.Codec in
+/-- **C07_stored_read_identical** — in every state satisfying the store invariant, for every constructible value:
+    stored through cif_container_set_value (existing item: every packet of its loop; new item: the scalar loop),
+    cif_loop_add_item (every packet of the loop), cif_loop_add_packet (the new packet, every item given) or
+    cif_pktitr_update_packet (the current packet, every item given), the value is read back identical by both reading
+    statements; set_value → get_value also at API level. -/
+theorem C07_stored_read_identical (s : Store) (hinv : InvS s) :
+    (∀ (h : CH) (n : Name) (v : V) (l : LH), C07_constructible v → C07_fits v → n.valid = true → s.autocommit = true →
+        getItemLoopInternal s.db h.id n.key = .ok l →
+        ∃ ln, s.db.loopOfItem h.id n.key = some ln ∧ (setValueC s h n v).2 = .ok ()
+          ∧ (∀ r ∈ s.db.loopRows h.id ln, ReadsBack (setValueC s h n v).1.db h.id n.key r v)
+          ∧ (s.db.loopRows h.id ln ≠ [] → ∃ b, (getValue (setValueC s h n v).1 h (some n)).2 = .ok (v, b)))
+    ∧ (∀ (h : CH) (n : Name) (v : V), C07_constructible v → C07_fits v → n.valid = true → s.autocommit = true →
+        getItemLoopInternal s.db h.id n.key = .error Gen.ErrCodes.CIF_NOSUCH_ITEM → (setValueC s h n v).2 = .ok () →
+        (∃ row, ReadsBack (setValueC s h n v).1.db h.id n.key row v)
+        ∧ ∃ b, (getValue (setValueC s h n v).1 h (some n)).2 = .ok (v, b))
+    ∧ (∀ (l : LH) (n : Name) (v : V), C07_constructible v → C07_fits v → n.valid = true → (addItemC s l n v).2 = .ok () →
+        ∃ d1, s.db.insertItem l.cid n.key n.orig l.loopNum = some d1
+          ∧ ∀ r ∈ d1.loopRows l.cid l.loopNum, ReadsBack (addItemC s l n v).1.db l.cid n.key r v)
+    ∧ (∀ (l : LH) (pkt : List (Str × V)), (∀ e ∈ pkt, C07_constructible e.2 ∧ C07_fits e.2) → (addPacketC s l pkt).2 = .ok () →
+        ∃ row, ∀ e ∈ pkt, ReadsBack (addPacketC s l pkt).1.db l.cid e.1 row e.2)
+    ∧ (∀ (it : Iter) (pkt : List (Str × V)), (∀ e ∈ pkt, C07_constructible e.2 ∧ C07_fits e.2) → keysDistinct pkt →
+        (updatePacketC s it pkt).2 = .ok () →
+        ∀ e ∈ pkt, ReadsBack (updatePacketC s it pkt).1.db it.cid e.1 it.prev.toNat e.2) := by
+  refine ⟨?_, ?_, ?_, ?_, ?_⟩
+  · intro h n v l hc hf hv hac hl
+    have hw := C07_constructible_wf v hc hf
+    rw [setValueC_wf s h n v hw]
+    obtain ⟨ln, hln, hok, _, hcells, hsome, _⟩ := setValue_existing_read_strong s h n v l hv hac hl
+    have hpost : Inv (setValue s h (some n) (some v)).1.db := (setValue_invS hinv h (some n) (some v)).db
+    exact ⟨ln, hln, hok, fun r hr => readsBack_of_cell _ hpost _ _ _ _ (hcells r hr), hsome⟩
+  · intro h n v hc hf hv hac hnew hok
+    have hw := C07_constructible_wf v hc hf
+    rw [setValueC_wf s h n v hw] at hok ⊢
+    obtain ⟨hall, row, hcell⟩ := setValue_new_read s h n v hv hac hnew hok
+    have hpost : Inv (setValue s h (some n) (some v)).1.db := (setValue_invS hinv h (some n) (some v)).db
+    exact ⟨⟨row, readsBack_of_cell _ hpost _ _ _ _ hcell⟩, getValue_delivers _ h n v hv hall row hcell⟩
+  · intro l n v hc hf hv hok
+    have hw := C07_constructible_wf v hc hf
+    rw [addItemC_wf s l n v hw] at hok ⊢
+    obtain ⟨_, d1, hi, hcells⟩ := addItem_read s l n v hv hok
+    have hpost : Inv (addItem s l (some n) (some v)).1.db := (addItem_invS hinv l (some n) (some v)).db
+    exact ⟨d1, hi, fun r hr => readsBack_of_cell _ hpost _ _ _ _ (hcells r hr)⟩
+  · intro l pkt hp hok
+    have hw : ∀ e ∈ pkt, wfValue parseFields e.2 = true := fun e he => C07_constructible_wf e.2 (hp e he).1 (hp e he).2
+    rw [addPacketC_wf s l pkt hw] at hok ⊢
+    obtain ⟨row, hcells⟩ := addPacket_read s l pkt hok
+    have hpost : Inv (addPacket s l pkt).1.db := (addPacket_invS hinv l pkt).db
+    exact ⟨row, fun e he => readsBack_of_cell _ hpost _ _ _ _ (hcells e he)⟩
+  · intro it pkt hp hd hok
+    have hw : ∀ e ∈ pkt, wfValue parseFields e.2 = true := fun e he => C07_constructible_wf e.2 (hp e he).1 (hp e he).2
+    rw [updatePacketC_wf s it pkt hw] at hok ⊢
+    obtain ⟨hcells, _⟩ := updatePacket_read s it pkt hd hok
+    have hpost : Inv (updatePacket s it pkt).1.db := (updatePacket_invS hinv it pkt).db
+    exact fun e he => readsBack_of_cell _ hpost _ _ _ _ (hcells e he)
+
+open CifModel.Store in
+/-- a value the codec cannot carry is refused by the composed operations — nothing is stored (the C: CIF_ERROR, rollback):
+    e.g. a number with an empty digit string (`C07_cex_empty_digits`) -/
+theorem C07_refused_not_stored (s : Store) (h : CH) (n : Name) (q : Bool) (t : Str) (neg : Bool) (su : Option (List Nat)) (sc : Int) :
+    CifModel.Store.Codec.setValueC s h n (.numb q t neg [] su sc) = (s, .error Gen.ErrCodes.CIF_ERROR) := by
+  obtain ⟨row, h1, h2⟩ := empty_digits_rejected q t neg su sc
+  simp [CifModel.Store.Codec.setValueC, CifModel.Store.Codec.image, h1, h2]
+
 /-! ### non-vacuity -/
 
 /-- a nested value with both key spellings, a quoted flag, an empty list and a number -/
@@ -360,6 +436,9 @@ def C07_sample : V :=
 
 example : C07_numbsConsistent parseFields C07_sample := by decide +kernel
 example : wfValue parseFields C07_sample = true := by decide +kernel
+-- the codec, executed: bind the columns, check, rebuild (list → blob → list, the number re-parsed)
+example : (CifModel.Store.Codec.image C07_sample == some C07_sample) = true := by decide +kernel
+example : (CifModel.Store.Codec.image (.numb false (a!"1.5") false [] none 1)).isNone = true := by decide +kernel
 example : deserialize parseFields (ser C07_sample) = some (C07_sample, []) :=
   (C07_serialize_roundtrip parseFields C07_sample (by decide +kernel)).1
 example : wfValue parseFields (.numb true (a!"-12(3)") true [1, 2] (some [3]) 0) = true := by decide +kernel
